@@ -222,7 +222,7 @@ CONDITIONS = [
                 "mutant:all_means_single@depth == 2 and ft == 1 and kind == 0 and top == 1 and t in (0, 4, 8, 9, 10) and nw != 1",
                 "mutant:class_of_type@depth == 1 and ft == 0 and kind == 0 and top == 1 and t in (0, 4, 8, 9, 10) and nw != 1",
                 "mutant:size_as_str@depth == 1 and ft == 0 and kind == 0 and top == 1 and t in (0, 4, 8, 9, 10) and nw != 1"],
-         timeout={"quick": 240, "thorough": 900},
+         timeout={"quick": 420, "thorough": 900},
          bounds="stack depth 1-3; 9 top-frame (file, self) variants and 6 lower-frame variants over 4 files (app root / excluded / included / outside); 11 graph "
                 "templates for the top frame's locals incl. an object presenting another __class__, an int too large for str(), tuple subclasses / structseq, a dict with unorderable keys, a range (quick 5); 5 frame_type settings; 0-2 watches; line and method tracepoints"),
 ]
